@@ -1,5 +1,6 @@
 """C13 - interrupts pre-empt and resume as documented; guards are checked when promised."""
 import itertools
+import os
 
 from symx import engine as E
 from symx.runner import Obligation
@@ -80,6 +81,17 @@ def corpus():
             {"Top": [("try", [("loop", [T("body")])],
                       [("co", [("repeat", 2, [("try", [T("hb")], [("ci", [T("ih")])]), ("if", "cb", [(kw,)]), T("htail")]),
                                T("hend")])])]}, conds=["ci", "cb", "co"])
+    # break / continue in a handler of a NESTED try-interrupt: the loop is around the outer statement, or inside an outer block
+    for kw in ("break", "continue"):
+        P[f"nested-handler-{kw}-reaches-the-loop-around-both"] = prog(
+            {"Top": [("loop", [T("head"), ("try", [("try", [T("b1"), T("b2")], [("ci", [T("ih"), (kw,)])])], [("co", [T("oh")])]), T("tail")]),
+                     ("loop", [T("after")])]}, conds=["ci", "co"])
+        P[f"loop-inside-outer-handler-nested-handler-{kw}"] = prog(
+            {"Top": [("try", [("loop", [T("body")])],
+                      [("co", [("repeat", 2, [T("h1"), ("try", [T("hb")], [("ci", [T("ih"), (kw,)])]), T("h2")]), T("hend")])])]}, conds=["ci", "co"])
+        P[f"loop-inside-outer-body-nested-handler-{kw}"] = prog(
+            {"Top": [("try", [("repeat", 2, [T("b1"), ("try", [T("b2")], [("ci", [T("ih"), (kw,)])]), T("b3")]), ("loop", [T("rest")])],
+                      [("co", [T("oh")])])]}, conds=["ci", "co"])
     # abandoned sub-behaviours are stopped: the same behaviour object can be invoked again
     P["abandoned-sub-object-reinvoked-after-abort"] = prog(
         {"Sub": [T("s1"), T("s2"), T("s3")],
@@ -201,7 +213,10 @@ def obligations(tier, seed):
            compiler.ScenicToPythonTransformer.visit_TryInterrupt]
     horizon = 3 if tier == "quick" else 4
     obs = []
-    for name, P in corpus().items():
+    programs = dict(corpus())
+    ngen = int(os.environ.get("C13_GENERATED", "6" if tier == "quick" else "60"))
+    programs.update(generated(seed, ngen))
+    for name, P in programs.items():
         guards = any(isinstance(b, dict) for b in P["behaviors"].values())
         for rg in ([False, True] if guards else [False]):
             obs.append(Obligation(f"{name}{'[raiseGuardViolations]' if rg else ''}", harness_for(name, P, horizon, rg),
@@ -210,3 +225,72 @@ def obligations(tier, seed):
                                   ["DummySimulation with logging hooks", "conditions read through builtins hooks"],
                                   opts=dict(total_timeout=400.0, per_path_timeout=40.0), setup=warm(name, P)))
     return obs
+
+
+# ------------------------------------------------------------------ generated programs of the interrupt fragment
+def gen_program(rnd, tag):
+    """A random program of the interrupt fragment: nested try-interrupt (depth <= 3, <= 3 handlers), handlers that take
+    actions / invoke sub-behaviours / abort / break / continue / return, loops, `do ... until/for`, guards."""
+    conds = [f"c{i}" for i in range(3)]
+    counter = [0]
+
+    def act():
+        counter[0] += 1
+        return T(f"{tag}a{counter[0]}")
+
+    def block(depth, in_loop, in_try, allow_do, size):
+        """A statement list that always starts with an action (so that no loop can spin without yielding)."""
+        out = [act()]
+        for _ in range(rnd.randint(0, size)):
+            k = rnd.random()
+            if k < 0.30:
+                out.append(act())
+            elif k < 0.40:
+                out.append(("wait",))
+            elif k < 0.55 and depth > 0:
+                nh = rnd.randint(1, 3 if depth == 3 else 2)
+                handlers = [(rnd.choice(conds), handler(depth - 1, in_loop, allow_do)) for _ in range(nh)]
+                out.append(("try", block(depth - 1, in_loop, True, allow_do, 2), handlers))
+            elif k < 0.65 and depth > 0:
+                out.append(("loop", block(depth - 1, True, in_try, allow_do, 2)))
+                break  # nothing after an infinite loop unless it can be left; keep it last
+            elif k < 0.72 and depth > 0:
+                out.append(("repeat", rnd.randint(1, 2), block(depth - 1, True, in_try, allow_do, 1)))
+            elif k < 0.82 and allow_do:
+                mod = rnd.choice([None, None, ("until", rnd.choice(conds)), ("for", "n", "steps")])
+                out.append(("do", "Sub", mod))
+            elif k < 0.90:
+                out.append(("if", rnd.choice(conds), [act()]))
+            elif in_loop and k < 0.95:
+                out.append(("if", rnd.choice(conds), [(rnd.choice(["break", "continue"]),)]))
+        return out
+
+    def handler(depth, in_loop, allow_do):
+        body = block(depth, in_loop, True, allow_do, 1)
+        k = rnd.random()
+        if k < 0.25:
+            body.append(("abort",))
+        elif k < 0.40 and in_loop:
+            body.append((rnd.choice(["break", "continue"]),))
+        elif k < 0.48:
+            body.append(("return",))
+        return body
+
+    sub = block(2, False, False, False, 2)
+    top = block(3, False, False, True, 3)
+    if rnd.random() < 0.5:
+        top = [("loop", top)] if rnd.random() < 0.5 else top + [("loop", [act()])]
+    behaviors = {"Sub": sub, "Top": top}
+    if rnd.random() < 0.3:
+        behaviors["Top"] = dict(pre=[], inv=["inv"], body=top)
+    if rnd.random() < 0.2:
+        behaviors["Sub"] = dict(pre=["pre"] if rnd.random() < 0.5 else [], inv=["sinv"] if rnd.random() < 0.5 else [], body=sub)
+    return dict(agents=[("a0", "Top")], behaviors=behaviors, monitor=None, record=False, compose=None,
+                values={"n": ("int", 1, 2)}, conds=conds)
+
+
+def generated(seed, n):
+    import random
+
+    rnd = random.Random(1300 + seed)
+    return {f"generated[{seed}.{i}]": gen_program(rnd, f"g{i}") for i in range(n)}
